@@ -298,6 +298,21 @@ func c47ExecWatch(c *hlib.Ctx, tok []string) string {
 			}
 		}
 	}
+	// a broken configuration (unset variable: apply fails) must not end the loop: the next good one is applied
+	if res == "ok" {
+		before := requests()
+		if os.WriteFile(cfg, []byte("bad $(VERIF_UNSET_VARIABLE)"), 0o644) != nil {
+			return "bad-op"
+		}
+		time.Sleep(2 * interval)
+		if os.WriteFile(cfg, []byte("good $(VERIF_A)"), 0o644) != nil {
+			return "bad-op"
+		}
+		c.Count("watch:apply-error-then-fix")
+		if !waitFor(func() bool { b, _ := os.ReadFile(out); return requests() > before && string(b) == "good va" }) {
+			fail("change-not-applied", "after an apply error (unset variable) the corrected configuration was not applied")
+		}
+	}
 	// quiescence: without changes the loop keeps applying on every tick but asks for no reload
 	if res == "ok" {
 		time.Sleep(interval) // let an apply that was running when the last edit landed finish
